@@ -1,7 +1,7 @@
 import Haiway.Model.Tasks
 import Driver.Common
 /-! `hwmodel tasks`: one interleaved label sequence per line.
-tokens: `ctor=<bits>`  `E<t>.<b>.<A|S|U>.<ty:val,…>[/<ty:val,…>]*`  `L<t>.<b>`  `P<t>.<ty>.<0|1>`  `Ws<t>|Wc<t>`  `F<t>`
+tokens: `ctor=<bits>`  `E<t>.<b>.<A|S|U>.<ty:val,…>[/<ty:val,…>]*`  `L<t>.<b>`  `P<t>.<ty>.<0|1>`  `Ws<t>|Wc<t>`  `F<t>`  `X<t>.<b>`
 out: one observation per probe (`s:<ty>:<val>` `d` `c` `ms` `mc`), `!` for a label the model refuses. -/
 namespace Driver.Tasks
 open Haiway.ScopeState Haiway.Tasks
@@ -37,11 +37,16 @@ def parseLabel (tok : String) : Option Label :=
     | _ => none
   | 'W' => do pure (.spawn (← (body.drop 1).toString.toNat?))
   | 'F' => do pure (.finish (← body.toNat?))
+  | 'X' =>
+    match body.splitOn "." with
+    | [t, b] => do pure (.foreignExit (← t.toNat?) (← b.toNat?))
+    | _ => none
   | _ => none
 
 def showObs : Obs → String
   | .none => ""
   | .supplied i => s!"s:{i.ty}:{i.val}"
+  | .refused => "xr"
   | .default => "d"
   | .constructed => "c"
   | .missingState => "ms"
